@@ -320,6 +320,69 @@ func (s *sample) extension() {
 	}
 }
 
+// branching: the same in-memory voucher extended to two different next owners (a reseller offering a device to two
+// buyers, a retry with another key). Each result keeps verifying and keeps naming ITS next owner after the other
+// extension was made, and the voucher that was extended is unchanged. Vouchers are built by successive in-memory
+// extensions (as a supply chain tool holds them) for every chain length 0..6.
+func branching(k keys.Kind, enc protocol.KeyEncoding) {
+	ctx := context.Background()
+	w := lab.NewWorld(k, enc)
+	if err := w.Dev.DI(ctx, w.WMfg.Transport()); err != nil {
+		r.Violation("lab-setup:branching", err.Error(), nil)
+		return
+	}
+	ov, err := w.Mfg.State.RemoveVoucher(ctx, w.Dev.Cred.GUID)
+	if err != nil {
+		r.Violation("lab-setup:branching", err.Error(), nil)
+		return
+	}
+	cur := w.Mfg.OwnerSigner(k)
+	roles := []string{"owner1", "owner2", "owner3"}
+	for n := 0; n <= 6; n++ {
+		r.Evaluations.Add(1)
+		id := fmt.Sprintf("%s/enc%d/n%d", k.Name, enc, n)
+		before, _ := cbor.Marshal(ov)
+		a, b := keys.Get(k.Alg, "stranger"), keys.Get(k.Alg, "device2")
+		xa, errA := lab.Extend(ov, cur, a, k)
+		var xaBytes []byte
+		if errA == nil {
+			xaBytes, _ = cbor.Marshal(xa)
+		}
+		xb, errB := lab.Extend(ov, cur, b, k)
+		repl := map[string]any{"voucher": id, "layer": "branching"}
+		if errA != nil || errB != nil {
+			r.Violation("extension-refused", fmt.Sprintf("%s: extending one voucher to two next owners: %v / %v", id, errA, errB), repl)
+			return
+		}
+		if after, _ := cbor.Marshal(ov); !bytes.Equal(before, after) {
+			r.Violation("extension-alters-source", fmt.Sprintf("%s: the voucher that was extended changed", id), repl)
+		}
+		if now, _ := cbor.Marshal(xa); !bytes.Equal(now, xaBytes) {
+			r.Violation("extension-alters-earlier-result", fmt.Sprintf("%s: the voucher extended to the first buyer changed when the same voucher was extended to a second one", id), repl)
+		}
+		for _, c := range []struct {
+			x    *fdo.Voucher
+			want crypto.Signer
+			name string
+		}{{xa, a, "first"}, {xb, b, "second"}} {
+			cb, _ := cbor.Marshal(c.x)
+			if failed, p2, xv := verifyAll(cb, w.Dev); failed != "" || p2 != nil {
+				r.Violation("extended-voucher-invalid", fmt.Sprintf("%s: the voucher extended to the %s buyer fails %s", id, c.name, failed), repl)
+			} else if pub, err := xv.OwnerPublicKey(); err != nil || !rv.KeysEqual(pub, c.want.Public()) {
+				r.Violation("extended-owner-wrong", fmt.Sprintf("%s: the voucher extended to the %s buyer does not name that buyer's key after both extensions were made", id, c.name), repl)
+			}
+		}
+		r.Distinct(id + "|branching")
+		// walk on: the chain grows by one in-memory extension
+		next := keys.Get(k.Alg, roles[n%len(roles)])
+		if ov, err = lab.Extend(ov, cur, next, k); err != nil {
+			r.Violation("extension-refused", fmt.Sprintf("%s: chain extension: %v", id, err), repl)
+			return
+		}
+		cur = next
+	}
+}
+
 func main() {
 	r = ev.Start("C04", "exploration")
 	type cfg struct {
@@ -337,7 +400,7 @@ func main() {
 		}
 		lens = []int{0, 1, 2, 3}
 	}
-	r.Rule("for each (key type, encoding) and chain length n: a voucher built by the real DI + ExtendVoucher; every single-node alteration under the cbormut operator set (recursing into the header bstr, each entry's protected header / payload / signature, certificate bytes, the HMAC), every byte ^0x01 (thorough: every bit), every pairwise entry swap, duplication and removal, and cross-voucher splices (header, HMAC, certificate chain, header+HMAC, all entries, each entry into each slot / appended) from sibling vouchers of the same and of another manufacturer and of other chain lengths, is decoded and put through VerifyHeader, VerifyManufacturerKey, VerifyCertChainHash, VerifyDeviceCertChain, VerifyEntries. Oracle: no panic; if all steps pass, the bound subtrees (header, HMAC, certificate chain, every entry's protected header, payload, signature) of the codec-normalised mutant equal the original's and the independent chain verifier agrees. Extension: every signer of the ring x 8 next-owner keys: success iff signer = current owner and next key of the manufacturer key's type and size; the result verifies and names the new key.")
+	r.Rule("for each (key type, encoding) and chain length n: a voucher built by the real DI + ExtendVoucher; every single-node alteration under the cbormut operator set (recursing into the header bstr, each entry's protected header / payload / signature, certificate bytes, the HMAC), every byte ^0x01 (thorough: every bit), every pairwise entry swap, duplication and removal, and cross-voucher splices (header, HMAC, certificate chain, header+HMAC, all entries, each entry into each slot / appended) from sibling vouchers of the same and of another manufacturer and of other chain lengths, is decoded and put through VerifyHeader, VerifyManufacturerKey, VerifyCertChainHash, VerifyDeviceCertChain, VerifyEntries. Oracle: no panic; if all steps pass, the bound subtrees (header, HMAC, certificate chain, every entry's protected header, payload, signature) of the codec-normalised mutant equal the original's and the independent chain verifier agrees. Extension: every signer of the ring x 8 next-owner keys: success iff signer = current owner and next key of the manufacturer key's type and size; the result verifies and names the new key. Branching: for every chain length 0..6 (vouchers grown by in-memory extensions) the same voucher object is extended to two different next owners: both results verify and name their own next owner after both extensions were made, and the extended voucher is unchanged.")
 	var all []*sample
 	var mu sync.Mutex
 	var wg sync.WaitGroup
@@ -375,6 +438,9 @@ func main() {
 		}()
 	}
 	wg.Wait()
+	for _, c := range cfgs {
+		branching(keys.KindByName(c.kind), c.enc)
+	}
 	r.Sample(3, map[string]any{"voucher": "ec256/enc1/n2", "class": "leaf:str-flip-mid", "path": "/4/1/0/2/bstr/0/1 (entry 1 previous hash value)"})
 	r.Sample(3, map[string]any{"voucher": "rsapss2048/enc2/n2", "class": "splice:entry", "what": "entry 0 of a sibling voucher into slot 1"})
 	r.Assume("bound subtrees are compared at value level on the codec-normalised (decode/re-encode) form; only the outer version and the unauthenticated COSE header maps are unbound; ECDSA signature malleability (r,-s) is outside the single-alteration operator set")
